@@ -306,6 +306,33 @@ def run_case(c):
                 bad("negative_pdos", "direction-projected DOS negative: %.3e" % pdd.min(), tet=tet, **feat)
             if (pdd.sum(axis=0) > tot + 1e-9 * max(tot.max(), 1e-12)).any() and not (c["smear"] == "Cauchy" and not tet):
                 bad("pdos_direction_exceeds_total", "direction-projected DOS exceeds the total DOS", tet=tet, **feat)
+        # the window given in whole numbers (the cm^-1 habit: freq_min=0, freq_max=600, freq_pitch=2) as Python ints, numpy ints, floats or a mixture:
+        # the same grid and the same densities whatever the scalar type (the model is stiffened so that the spectrum spans ~40 frequency units)
+        ph.force_constants = np.array(fc) * (40.0 / span) ** 2
+        ph.run_mesh(mesh, shift=c["shift"], is_gamma_center=c["gamma"], is_mesh_symmetry=False, with_eigenvectors=True)
+        fr2 = np.array(ph.mesh.frequencies)
+        lo_, hi_ = int(np.floor(fr2.min())) - 2, int(np.ceil(fr2.max())) + 2
+        forms = [("float", (float(lo_), float(hi_), 1.0)), ("int", (lo_, hi_, 1)), ("numpy_int", (np.int64(lo_), np.int64(hi_), np.int64(1))),
+                 ("int_min_float_pitch", (lo_, hi_, 1.0)), ("float_min_int_pitch", (float(lo_), hi_, 1)), ("numpy_float32", (np.float32(lo_), np.float32(hi_), np.float32(1)))]
+        for tet in (True, False):
+            ref_t = None
+            for nm, (a_, b_, p_w) in forms:
+                kw_t = dict(freq_min=a_, freq_max=b_, freq_pitch=p_w, use_tetrahedron_method=tet, sigma=None if tet else 1.3)
+                ph.run_total_dos(**kw_t)
+                dd_t = ph.get_total_dos_dict()
+                ph.run_projected_dos(**kw_t)
+                got_t = (np.array(dd_t["frequency_points"], float), np.array(dd_t["total_dos"], float), np.array(ph.get_projected_dos_dict()["projected_dos"], float))
+                obs["n_window_scalar_types"] = obs.get("n_window_scalar_types", 0) + 1
+                if ref_t is None:
+                    ref_t = got_t
+                    # (no normalisation demand here: unit pitch on a coarse mesh is a poor quadrature; the comparison is vacuous if the reference vanishes, so count)
+                    obs["n_window_reference_nonzero"] = obs.get("n_window_reference_nonzero", 0) + int(np.trapezoid(got_t[1], got_t[0]) > 0.3 * nb)
+                    continue
+                for what, x_, y_ in zip(("frequency points", "total DOS", "projected DOS"), got_t, ref_t):
+                    if x_.shape != y_.shape or np.abs(x_ - y_).max() > 1e-10 * max(np.abs(y_).max(), 1e-12):
+                        bad("window_scalar_type", "%s DOS: %s with the window given as %s (%r, %r, %r) differ from the same window given as floats by %.3e (max %.3e)" % (
+                            "tetrahedron" if tet else "smearing", what, nm, a_, b_, p_w, np.abs(x_ - y_).max() if x_.shape == y_.shape else np.inf, np.abs(y_).max()), tet=tet, form=nm, **feat)
+                        break
         key = "real|%s|%s|%s|%s|%s" % (c["crystal"]["name"], mesh, c["shift"], c["gamma"], c["smear"])
         return {"viol": viol, "nontrivial": bool(np.prod(mesh) > 1), "key": key, "obs": obs, "evals": 10,
                 "sample": {"kind": "real", "crystal": c["crystal"], "mesh": mesh, "shift": c["shift"], "nbands": nb, "smear": c["smear"]}}
